@@ -293,12 +293,57 @@ def run_live(desc, out):
             if self.bad == "sports":
                 raise ValueError("injected")
 
-    bad = rng.choice(("raw", "sports", "check_sports", "custom"))
+    bad = rng.choice(("raw", "sports", "check_sports", "custom", "orders_book", "orders_nobook", "book"))
     order = rng.random() < 0.5
     x, y = Rec("X", bad if bad != "custom" else None), Rec("Y", None)
     tr, w = livecases.new_world([x, y] if order else [y, x])
     try:
         mid = w.add_market_file(livecases.static_market())
+        if bad in ("orders_book", "orders_nobook", "book"):
+            # market-book and order callbacks of a live instance; with "nobook" the order stream reports bets of a market that has
+            # not been seen on the market stream yet (its Market exists without a book)
+            def process_orders(self, market, orders):
+                self.got.append(("orders", market.market_id, len(orders)))
+                if self.bad in ("orders_book", "orders_nobook"):
+                    raise ValueError("injected orders")
+
+            def process_market_book(self, market, market_book):
+                self.got.append(("book", market.market_id))
+                if self.bad == "book":
+                    raise ValueError("injected book")
+
+            Rec.process_orders = process_orders
+            Rec.process_market_book = process_market_book
+            Rec.check_market_book = lambda self, market, market_book: True
+            if bad != "orders_nobook":
+                w.next_book(mid)
+            tw = {s_.name: livecases.make_strategy(s_.name) for s_ in (x, y)}
+            for s_ in (x, y):
+                for _ in range(rng.randint(1, 2)):
+                    o = livecases.make_order(tw[s_.name], mid, sel=rng.choice((701, 702)), side="BACK", price=3.0, size=2.0)
+                    w.exchange._new_bet(mid, o.create_place_instruction(), None)
+            n = rng.randint(2, 4)
+            tags = {"callback": bad, "target": "X"}
+            escaped = None
+            for i in range(n):
+                try:
+                    w.snapshot()
+                    if bad != "orders_nobook" or i > 0:
+                        w.next_book(mid)
+                except Exception as e:  # noqa
+                    escaped = repr(e)
+                    break
+            out.rule("live-callbacks")
+            out.d("live:%s:%s" % (bad, order))
+            if escaped:
+                out.v("injected-exception-escaped-handler", tags, error=escaped)
+            yo = sum(1 for g in y.got if g[0] == "orders")
+            yb = sum(1 for g in y.got if g[0] == "book")
+            books = n + 1 if bad != "orders_nobook" else n - 1
+            # Y has orders in the market: one process_orders call per order-stream update, and one per market book
+            if yb != books or yo < n:
+                out.v("other-strategy-delivery-changed", tags, orders_calls=yo, book_calls=yb, n=n, expected_books=books)
+            return
         w.next_book(mid)
         n = rng.randint(2, 6)
         tags = {"callback": bad, "target": "X"}
